@@ -474,8 +474,9 @@ def lattice_block(spec, nvec):
             if not (close(np.sum(mc.data * ma.data, -1), 0 * z, tol, xs * max(float(np.max(np.abs(ma.data))), 1e-300))
                     and close(np.sum(mc.data * mb.data, -1), 0 * z, tol, xs * max(float(np.max(np.abs(mb.data))), 1e-300))):
                 fail("cross:perpendicular", "cross product is not perpendicular to its factors", rep)
-            dual = {"uvw": "hkl", "hkl": "uvw", "UVTW": "hkil", "hkil": "UVTW"}
-            if fa in dual and mc.coordinate_format != dual[fa]:
+            # lattice formats go to the dual space; Cartesian vectors stay Cartesian
+            dual = {"uvw": "hkl", "hkl": "uvw", "UVTW": "hkil", "hkil": "UVTW", "xyz": "xyz"}
+            if mc.coordinate_format != dual[fa]:
                 fail(f"cross:format:{fa}", f"cross of {fa} vectors is reported as {mc.coordinate_format}", rep)
             if mc.shape != ma.shape:
                 fail("shape:cross", "cross product changes the shape", rep)
@@ -486,6 +487,9 @@ def lattice_block(spec, nvec):
             elif fa in ("hkl", "hkil"):
                 if not close(mc.uvw, ic / V, tol, max(float(np.max(np.abs(ic), initial=0)) / V, 1e-300)):
                     fail("cross:dual-indices", "[uvw] of (h1)x(h2) != (h1 x h2) / V", rep)
+            else:  # xyz: the Cartesian cross product of the Cartesian data
+                if not close(mc.data, np.cross(ma.data, mb.data), tol, xs):
+                    fail("cross:xyz-data", "cross of xyz vectors is not the Cartesian cross product", rep)
 
     # --- inconsistent 4-index input must be rejected by the constructor
     for f in ("UVTW", "hkil"):
